@@ -32,7 +32,7 @@ PROPS = {
     "C15": ("fault_enumeration", [("rel", 15000), ("san", 1200)], [("rel", 0.4), ("san", 0.4), ("c2", 0.1), ("dbg", 0.1)]),
     "C16": ("exploration", [("rel", 8000), ("o0", 6000), ("san", 1500)], [("rel", 0.2), ("o0", 0.15), ("o3", 0.15), ("c0", 0.1), ("c2", 0.15), ("c3", 0.1), ("san", 0.15)]),
     "C18": ("exploration", [("rel", 60000), ("san", 3000)], [("rel", 0.3), ("san", 0.3), ("dbg", 0.2), ("c2", 0.2)]),
-    "C20": ("exploration", [("san", 2400), ("relpc", 4000)], [("san", 0.7), ("relpc", 0.3)]),
+    "C20": ("exploration", [("san", 2400), ("relpc", 12000)], [("san", 0.7), ("relpc", 0.3)]),
 }
 RULE_EXTRA = {
     "C10": " Run indices 0-63 of every configuration enumerate all 8 enabled-feature masks x 32 feature values x 4 entry points. One run in eight is a concurrent plan (2-3 tasks on their own seeds under the seeded scheduler; feature verdicts and queries must equal what each task observes alone).",
